@@ -642,7 +642,8 @@ def run_config(sc, cfg, quick):
         first = (server == "threadpool4") != auth
         pure_classes = (order[:len(order) // 2] if first else order[len(order) // 2:]) + (AUTH_CLASSES if auth else [])
     try:
-        sp = rn.ServerProc(server, auth=auth)
+        # forking servers run with a descriptor table of 64: "any number of such clients" must not use the listening process up
+        sp = rn.ServerProc(server, auth=auth, nofile=64 if server == "forking" else None)
     except rn.ChildError as e:
         sc.inconclusive("could not start %s server: %s" % (server, str(e)[:300]))
         return
